@@ -358,6 +358,13 @@ def mk_proc(p, world=None, pi=0):
             no = RelaxationNoise(t1=n["t1"], t2=n["t2"])
         elif n["kind"] == "amp":
             no = ControlAmpNoise(coeff=np.array([0.25, 0.5, 0.25]), tlist=np.array([0.0, 1.0, 2.0]), indices=[0])
+        elif n["kind"] == "ampall":
+            # deterministic amplitude noise on EVERY pulse (indices=None: the range is that of the pulses held at the time)
+            no = ControlAmpNoise(coeff=np.array([0.25, 0.5, 0.25, 0.125]), tlist=np.array([0.0, 1.0, 2.0, 3.5]))
+        elif n["kind"] == "ampscalar":
+            no = ControlAmpNoise(coeff=0.25)
+        elif n["kind"] == "randall":
+            no = RandomNoise(dt=0.5, rand_gen=_const_gen)
         else:
             no = RandomNoise(dt=0.5, rand_gen=_const_gen, indices=[0])
         if world is not None:
@@ -390,6 +397,10 @@ def mk_comp(k):
 # operations
 # ------------------------------------------------------------------------------------------------------
 SIM_OPS = ("sim_run", "sim_stats")
+# legal edits of a caller's circuit between two uses of a simulator / processor that was built on it (declared
+# mutators: their change of the circuit is the point, not a violation); histories with edits are checked by the
+# used-equals-fresh / repeat oracles only (Model/Heap.v has no edit operation)
+EDIT_OPS = ("add_meas", "add_gate", "pop_gate")
 PROC_QUERIES = ("qobjevo", "noisy_pulses", "run_analytically", "proc_pulses")
 SERVICE_OPS = SIM_OPS + ("compile", "load") + PROC_QUERIES
 
@@ -409,6 +420,18 @@ def do_call(W, call):
         sim = W.sim(call["sim"])
         qc = sim.qc
         return sim.run(mk_state(call.get("state", "gen"), qc.N, call.get("dmstate", False)), cbits=cb, measure_results=mr)
+    if op == "sim_make":
+        sim = W.sim(call["sim"])
+        return ["simulator", sim.mode]
+    if op == "add_meas":
+        qc.add_measurement("M%d" % call["t"], targets=[call["t"]], classical_store=call.get("store"))
+        return None
+    if op == "add_gate":
+        qc.add_gate(call["name"], targets=[call["t"]])
+        return None
+    if op == "pop_gate":
+        qc.remove_gate_or_measurement(index=call["k"] % len(qc.gates))
+        return None
     if op == "sim_stats":
         sim = W.sim(call["sim"])
         qc = sim.qc
@@ -584,6 +607,8 @@ def run_history(inp, repeat=True, fresh=True):
         call["_ok"] = ok
         what_call = {k: v for k, v in call.items() if not k.startswith("_")}
         for k in mutated:
+            if call["op"] in EDIT_OPS and k == "circ%d" % call["circ"]:
+                continue
             fails.append(dict(kind="arg-mutated", call_index=ci, call=what_call, root=k, before=before[k], after=after[k]))
         dirty_before = sorted(dirty)
         dirty.update(mutated)
@@ -631,6 +656,14 @@ def run_history(inp, repeat=True, fresh=True):
         else:
             o["error"] = res
             prev = None
+            if fresh and call["op"] in SIM_OPS + PROC_QUERIES:
+                # the used simulator / processor raised: a freshly constructed one (same circuit contents, same
+                # program loaded) must raise as well
+                ok2, res2 = fresh_replay(inp, saved, done, what_call)
+                if ok2:
+                    o["fresh_equal"] = False
+                    fails.append(dict(kind="used-differs-from-fresh", call_index=ci, call=what_call,
+                                      observed="raised " + str(res), fresh=_short(canon(res2))))
         done.append(call)
         obs.append(o)
     return obs, fails
@@ -1040,7 +1073,11 @@ def gen_world(rng, procs_ok=True):
     sims = [dict(circ=CIRC_M), dict(circ=CIRC_M, dm=True), dict(circ=CIRC_U)]
     procs = [dict(kind="linear", N=N), dict(kind="circular", N=N, t1=50.0, t2=30.0), dict(kind="cqed", N=N),
              dict(kind="linear", N=N, noise=[dict(kind="relax", t1=40.0, t2=20.0), dict(kind="amp")]),
-             dict(kind="sc", N=N)]
+             dict(kind="sc", N=N),
+             # processors whose noise acts on "all pulses" (indices=None): the range depends on the program held
+             dict(kind="linear", N=N, noise=[dict(kind="ampall")]),
+             dict(kind="circular", N=N, noise=[dict(kind="randall"), dict(kind="relax", t1=40.0, t2=20.0), dict(kind="ampscalar")]),
+             dict(kind="cqed", N=N, noise=[dict(kind="ampall"), dict(kind="randall")])]
     for p in procs[:3]:
         if rng.random() < 0.4:
             p["pm"] = "continuous"
@@ -1173,6 +1210,98 @@ def gen_history(rng, maxlen=8, family=None):
     inp["family"] = family
     del inp["_procs"]
     return inp
+
+
+NOISY_PROCS = (5, 6, 7, 3)
+
+
+def gen_reuse_history(rng, maxlen=8):
+    """One processor that carries Noise objects, observed WITH noise, re-loaded with circuits that drive a different
+    number of pulses, observed again (used-equals-fresh, repeat and held-state oracles of run_history)."""
+    inp = gen_world(rng)
+    p = rng.choice(NOISY_PROCS)
+    kind = inp["procs"][p]["kind"]
+
+    def obs():
+        k = rng.random()
+        if k < 0.5:
+            return dict(op="qobjevo", proc=p, noisy=True)
+        if k < 0.9:
+            return dict(op="noisy_pulses", proc=p, dn=rng.random() < 0.5, drift=rng.random() < 0.3)
+        return dict(op="qobjevo", proc=p, noisy=False)
+    order = [CIRC_U, CIRC_N, CIRC_2, CIRC_E, CIRC_N, CIRC_U]
+    rng.shuffle(order)
+    calls = []
+    last = None
+    for ci in order:
+        if ci == last:
+            continue
+        last = ci
+        comp = None
+        if rng.random() < 0.25:
+            comp = rng.choice({"linear": [0, 2], "circular": [5], "cqed": [1], "sc": [4]}[kind])
+        calls.append(dict(op="load", proc=p, circ=ci, comp=comp, sm=rng.choice(["ASAP", "ASAP", "ALAP"])))
+        calls.append(obs())
+        if rng.random() < 0.3:
+            calls.append(dict(calls[-1]))
+    inp["calls"] = calls[:maxlen]
+    inp["family"] = "reuse"
+    return inp
+
+
+def gen_edit_history(rng, maxlen=8):
+    """A CircuitSimulator kept while the circuit it was built on is edited (measurement / gate added or removed)
+    between its construction (or an earlier use) and run / run_statistics: it must answer like a fresh simulator
+    built on the circuit as it is now."""
+    inp = gen_world(rng)
+    si = rng.choice([0, 1, 2, 2])
+    ci = inp["sims"][si]["circ"]
+    N = inp["circs"][ci]["N"]
+    ncb = inp["circs"][ci].get("ncb", 0)
+    if ncb == 0 and rng.random() < 0.7:
+        inp["circs"][ci]["ncb"] = ncb = 2
+    nm = sum(1 for g in inp["circs"][ci]["gates"] if "M" in g)
+    ng = len(inp["circs"][ci]["gates"])
+    kinds = ["M" if "M" in g else "G" for g in inp["circs"][ci]["gates"]]
+
+    def use():
+        st = rng.choice(["gen", "plus", 0, 1])
+        k = rng.random()
+        if k < 0.55:
+            return dict(op="sim_stats", sim=si, cbits=None, state=st)
+        if k < 0.85:
+            return dict(op="sim_run", sim=si, cbits=None, state=st, mr=[rng.randint(0, 1) for _ in range(nm)])
+        return dict(op="qc_stats", circ=ci, cbits=None, state=st, dmstate=False)
+    calls = [dict(op="sim_make", sim=si)] if rng.random() < 0.5 else [use()]
+    while len(calls) < maxlen - 1:
+        k = rng.random()
+        if k < 0.5:
+            calls.append(dict(op="add_meas", circ=ci, t=rng.randrange(N), store=(rng.randrange(ncb) if ncb and rng.random() < 0.8 else None)))
+            nm += 1
+            ng += 1
+            kinds.append("M")
+        elif k < 0.7:
+            calls.append(dict(op="add_gate", circ=ci, name=rng.choice(["SNOT", "X", "Y"]), t=rng.randrange(N)))
+            ng += 1
+            kinds.append("G")
+        elif k < 0.8 and ng > 1:
+            j = rng.randrange(ng)
+            calls.append(dict(op="pop_gate", circ=ci, k=j))
+            if kinds.pop(j) == "M":
+                nm -= 1
+            ng -= 1
+        else:
+            continue
+        calls.append(use())
+        if rng.random() < 0.35:
+            calls.append(dict(calls[-1]))
+    inp["calls"] = calls[:maxlen]
+    inp["family"] = "edit"
+    return inp
+
+
+def has_edit(inp):
+    return any(c["op"] in EDIT_OPS or c["op"] == "sim_make" for c in inp["calls"])
 
 
 def key_of(inp):
@@ -1316,7 +1445,10 @@ def targeted_histories():
     base = dict(circs=[cu, cm, cn, c2, cl, cq, ce, cz, c0, cb], cbits=[[0, 0], [1, 0], [1], []],
                 sims=[dict(circ=1), dict(circ=1, dm=True), dict(circ=0)],
                 procs=[dict(kind="linear", N=3), dict(kind="circular", N=3, t1=50.0, t2=30.0), dict(kind="cqed", N=3),
-                       dict(kind="linear", N=3, noise=[dict(kind="relax", t1=40.0, t2=20.0), dict(kind="amp")]), dict(kind="sc", N=3)],
+                       dict(kind="linear", N=3, noise=[dict(kind="relax", t1=40.0, t2=20.0), dict(kind="amp")]), dict(kind="sc", N=3),
+                       dict(kind="linear", N=3, noise=[dict(kind="ampall")]),
+                       dict(kind="circular", N=3, noise=[dict(kind="randall"), dict(kind="relax", t1=40.0, t2=20.0), dict(kind="ampscalar")]),
+                       dict(kind="cqed", N=3, noise=[dict(kind="ampall"), dict(kind="randall")])],
                 comps=[dict(kind="spinchain", N=3), dict(kind="cqed", N=3),
                        dict(kind="spinchain", N=3, args=1 + SHAPES.index("blackman")), dict(kind="cqed", N=3, args=1 + SHAPES.index("triang")),
                        dict(kind="scq", N=3, args=1 + SHAPES.index("parzen")), dict(kind="spinchain", N=3, setup="circular", args=1 + SHAPES.index("flattop"))])
@@ -1383,6 +1515,19 @@ def targeted_histories():
         H("proc", dict(op="load", proc=p, circ=2), dict(op="load", proc=p, circ=8), dict(op="proc_pulses", proc=p), dict(op="load", proc=p, circ=6, **kw),
           dict(op="load", proc=p, circ=6, **kw), dict(op="proc_pulses", proc=p), dict(op="noisy_pulses", proc=p, dn=True))
         for p, kw in ((0, dict(comp=0)), (1, {}), (2, dict(comp=1)), (4, {}))
+    ] + [
+        # a processor with "all pulses" noise observed with noise, re-loaded with more / fewer pulses, observed again
+        H("reuse", dict(op="load", proc=p, circ=6), dict(op=q, proc=p, **kw), dict(op="load", proc=p, circ=2), dict(op=q, proc=p, **kw),
+          dict(op="load", proc=p, circ=8), dict(op=q, proc=p, **kw), dict(op="load", proc=p, circ=0), dict(op=q, proc=p, **kw))
+        for p, q, kw in ((5, "qobjevo", dict(noisy=True)), (5, "noisy_pulses", dict(dn=True)), (6, "qobjevo", dict(noisy=True)), (7, "noisy_pulses", dict(dn=True)))
+    ] + [
+        # a simulator kept across edits of its circuit
+        H("edit", dict(op="sim_make", sim=2), dict(op="add_meas", circ=0, t=0, store=None), dict(op="sim_stats", sim=2), dict(op="sim_stats", sim=2),
+          dict(op="add_meas", circ=0, t=1, store=None), dict(op="sim_stats", sim=2), dict(op="sim_run", sim=2, mr=[1, 0]), dict(op="qc_stats", circ=0)),
+        H("edit", dict(op="sim_stats", sim=0), dict(op="add_meas", circ=1, t=2, store=1), dict(op="sim_stats", sim=0), dict(op="sim_run", sim=0, mr=[0, 1, 1]),
+          dict(op="pop_gate", circ=1, k=5), dict(op="sim_stats", sim=0), dict(op="add_gate", circ=1, name="SNOT", t=2), dict(op="sim_stats", sim=0)),
+        H("edit", dict(op="sim_stats", sim=1, state="plus"), dict(op="add_gate", circ=1, name="X", t=0), dict(op="add_meas", circ=1, t=0, store=0),
+          dict(op="sim_stats", sim=1, state="plus"), dict(op="sim_stats", sim=1, state="plus")),
     ]
 
 
@@ -1397,15 +1542,21 @@ def correspond(ctx):
     fams = ["sim"] * 3 + ["pass"] * 3 + ["sched"] * 2 + ["proc"] * 2 + ["mixed"] * 2
     for i in range(ctx.n(180, 1500)):
         inps.append(("random", gen_history(rng, 8, family=fams[i % len(fams)])))
+    for i in range(ctx.n(10, 150)):
+        inps.append(("random", gen_reuse_history(rng, 8)))
+    for i in range(ctx.n(16, 200)):
+        inps.append(("random", gen_edit_history(rng, 8)))
     reals = run_many([i for _, i in inps])
     items = []
     for (kind, inp), (obs, fails, err) in zip(inps, reals):
         if err is not None:
             raise Broken("correspondence-harness:C16", err)
-        items.append((inp, [o["ok"] for o in obs]))
-    models = run_model_many(ctx.tier, items)
+        if not has_edit(inp):
+            items.append((inp, [o["ok"] for o in obs]))
+    models_it = iter(run_model_many(ctx.tier, items))
     n_calls = 0
-    for (kind, inp), (obs, fails, err), model in zip(inps, reals, models):
+    for (kind, inp), (obs, fails, err) in zip(inps, reals):
+        model = None if has_edit(inp) else next(models_it)
         corr.tally(kind)
         corr.tally("family=" + inp.get("family", "?"))
         corr.tally("len=%d" % len(inp["calls"]))
@@ -1413,7 +1564,10 @@ def correspond(ctx):
             corr.tally("op=" + c["op"] + ("" if o["ok"] else " (rejected)"))
             n_calls += 1
         corr.count(key_of(inp), nontrivial=nontrivial(inp, obs), sample=dict(circs=inp["circs"][:1], calls=inp["calls"]))
-        compare(inp, obs, model, corr)
+        if model is None:
+            corr.tally("oracle-only (circuit edited between uses: no edit operation in Model/Heap.v)")
+        else:
+            compare(inp, obs, model, corr)
         for f in fails:
             fr = fail_record(inp, f)
             corr.oracle_fail(fr["input"], fr["observed"], fr["expected"], fr["what"])
@@ -1459,6 +1613,7 @@ def search(ctx, broken):
     cands = load_corpus() + targeted_histories()
     rng = ctx.rng
     cands += [gen_history(rng, 8) for _ in range(ctx.n(150, 600))]
+    cands += [gen_reuse_history(rng, 8) for _ in range(ctx.n(20, 100))] + [gen_edit_history(rng, 8) for _ in range(ctx.n(20, 100))]
     for (obs, fails, err), inp in zip(run_many(cands), cands):
         if err is not None:
             continue
